@@ -144,32 +144,76 @@ func loopKey(l *Loop, n *Node) string {
 // loop body refers to are havocked as whole objects.
 func (vc *VC) loopLocals(f *Frame, l *Loop, n *Node) []modTarget {
 	var out []modTarget
-	seen := map[*ssa.Alloc]bool{}
+	// root(v): the allocation (made outside the loop) a pointer value is derived from
+	var root func(v ssa.Value, depth int) *ssa.Alloc
+	root = func(v ssa.Value, depth int) *ssa.Alloc {
+		if depth > 8 {
+			return nil
+		}
+		switch x := v.(type) {
+		case *ssa.Alloc:
+			if l.Body[x.Block()] {
+				return nil
+			}
+			return x
+		case *ssa.FieldAddr:
+			return root(x.X, depth+1)
+		case *ssa.IndexAddr:
+			return root(x.X, depth+1)
+		case *ssa.Slice:
+			return root(x.X, depth+1)
+		case *ssa.ChangeType:
+			return root(x.X, depth+1)
+		case *ssa.Convert:
+			return root(x.X, depth+1)
+		}
+		return nil
+	}
+	written := map[*ssa.Alloc]bool{}
 	for b := range l.Body {
 		for _, in := range b.Instrs {
+			switch x := in.(type) {
+			case *ssa.UnOp, *ssa.FieldAddr, *ssa.IndexAddr, *ssa.Slice, *ssa.ChangeType, *ssa.Convert, *ssa.DebugRef:
+				continue // reads and address computations
+			case *ssa.Store:
+				if a := root(x.Addr, 0); a != nil {
+					written[a] = true
+				}
+				if a := root(x.Val, 0); a != nil {
+					written[a] = true // the pointer escapes
+				}
+				continue
+			}
 			for _, op := range in.Operands(nil) {
-				a, ok := (*op).(*ssa.Alloc)
-				if !ok || seen[a] || l.Body[a.Block()] {
+				if *op == nil {
 					continue
 				}
-				seen[a] = true
-				ptr := f.get(a, n)
-				et := a.Type().Underlying().(*types.Pointer).Elem()
-				ss := map[Sort]bool{}
-				lay := layout(et)
-				if arr, ok := et.Underlying().(*types.Array); ok {
-					lay = layout(arr.Elem())
-				}
-				for _, s := range lay {
-					if !ss[s] {
-						ss[s] = true
-						out = append(out, modTarget{kind: "object", heap: s.heap(), sort: s, ref: ptr.C[0], what: "local " + a.Comment})
-					}
+				if a := root(*op, 0); a != nil {
+					written[a] = true // passed to a call / captured: may be written through
 				}
 			}
 		}
 	}
-	sort.Slice(out, func(i, j int) bool { return out[i].what+out[i].heap < out[j].what+out[j].heap })
+	var allocs []*ssa.Alloc
+	for a := range written {
+		allocs = append(allocs, a)
+	}
+	sort.Slice(allocs, func(i, j int) bool { return allocs[i].Pos() < allocs[j].Pos() })
+	for _, a := range allocs {
+		ptr := f.get(a, n)
+		et := a.Type().Underlying().(*types.Pointer).Elem()
+		ss := map[Sort]bool{}
+		lay := layout(et)
+		if arr, ok := et.Underlying().(*types.Array); ok {
+			lay = layout(arr.Elem())
+		}
+		for _, s := range lay {
+			if !ss[s] {
+				ss[s] = true
+				out = append(out, modTarget{kind: "object", heap: s.heap(), sort: s, ref: ptr.C[0], what: "local " + a.Comment})
+			}
+		}
+	}
 	return out
 }
 
